@@ -5,6 +5,7 @@
    classes: 0 multitone (distinct partials per channel), 1 linear sweep, 2 low-passed noise (independent per channel), 3 click train (distinct offsets),
             4 like 0 but channel 0 silent, 5 tone bursts separated by exact zeros on channel 0 and steady tones elsewhere, 6 noise bursts (for the lag test),
             7 sharp-onset bursts between exact zeros on channel 0 only, steady tones on every other channel (transient detection must not depend on which channel has the onset),
+            9 one speaker at a time (channel c sounds in its own slot, the others are exactly zero meanwhile: chained coupling steps see silent partners),
             8 a loud tone on channel 0 and a 60 Hz tone 48 dB below it on the others (mono: loud for half a second, then the quiet tone): a channel's threshold must not depend on another channel's level
    answer: sig rc= n= out= finite= peakin= peakout= lag=<per channel best lag over the probe set> self=<per channel: input channel it correlates best with>
            snr=<per channel, tenths of dB; 'S' for a silent input channel with its leak in tenths of dB relative to the loudest channel> */
@@ -30,6 +31,10 @@ static void c6_make(float **in,int ch,long rate,long n,int cls,long seed){
       case 7: if(c==0){ long ph=i%(rate/3>0?rate/3:1); v=(ph<200)?0.6*sin(2*M_PI*0.07*(double)ph+1.0):0.0; } else v=0.3*sin(2*M_PI*f1*t+c); break;
       case 8: if(ch==1) v=(i<rate/2)?0.8*sin(2*M_PI*1000.0/(double)rate*t):0.003*sin(2*M_PI*60.0/(double)rate*t);
               else v=(c==0)?0.8*sin(2*M_PI*1000.0/(double)rate*t):0.003*sin(2*M_PI*60.0/(double)rate*t+c); break;
+      case 9: { /* one speaker at a time: channel c sounds in its own slot of the signal (256-sample ramps), every other channel is exactly zero meanwhile */
+        long slot=n/(ch>0?ch:1),a=c*slot,b=a+slot,r=256; double g=0;
+        if(i>=a&&i<b){ g=1.0; if(i-a<r)g=(double)(i-a)/r; if(b-i<r)g=(double)(b-i)/r; }
+        v=g*(0.3*sin(2*M_PI*f1*t+c)+0.2*sin(2*M_PI*f2*t)); } break;
       default: { double w=c6_u(&st); long ph=(i+211*c)%(rate/5>0?rate/5:1); lp+=0.3*(w-lp); v=(ph<rate/40)?2.5*lp:0.0; } break;
       }
       in[c][i]=(float)v;
